@@ -20,7 +20,7 @@ def getOptIntList (j : Json) (k : String) : Except String (Option (List Int)) :=
 def fnOf (l : List Rat) : Nat → Rat := fun i => l.getD i 0
 def fnOfS (l : List String) : Nat → String := fun i => l.getD i ""
 
-def h : Handler := fun op j =>
+def hStep : Handler := fun op j =>
   match op with
   | "composition_keys" => do
       pure (showIntList (compositionKeys (← getSubs j "subs")))
@@ -58,5 +58,19 @@ def h : Handler := fun op j =>
         let vals := cs.map fun c => elimExpr (entry M c.1) (fnOf y0) (fnOf y) ny c.2
         pure (chosen ++ ";ok;" ++ showRatList vals)
   | _ => .error "!bad-op"
+
+/-- `history`: a list of steps, each a complete op on the state current at that step.  The model has no hidden state: a
+    history is replayed by evaluating the pure function of every step; the outputs are joined with " | ". -/
+def h : Handler := fun op j =>
+  match op with
+  | "history" => do
+      let outs ← (← getArr j "steps").mapM fun s => do
+        let sop ← getStr s "op"
+        if sop == "history" then .error "!bad-arg:nested-history" else
+        match hStep sop s with
+        | .ok o => pure o
+        | .error e => pure e
+      pure (" | ".intercalate outs)
+  | _ => hStep op j
 
 def main : IO Unit := run h
